@@ -15,4 +15,14 @@ def Point64.inRange (p : Point64) : Prop :=
 def crossZ (p1 p2 p3 : Point64) : Int :=
   (p2.X.toInt - p1.X.toInt) * (p3.Y.toInt - p2.Y.toInt) - (p2.Y.toInt - p1.Y.toInt) * (p3.X.toInt - p2.X.toInt)
 
+/-- an engine view with the given clip type and fill rule (other options irrelevant to the decisions) -/
+def mkEng (ct fr : Nat) : clipperBase :=
+  { fillRule := fr, clipType := ct, hasOpenPaths := false, usingPolyTree := false, preserveCollinear := true, reverseSolution := false }
+/-- a closed edge of path type `pt` with the given wind counts -/
+def mkEdge (pt : Nat) (wc wc2 : Int) : Active :=
+  { windDx := 1, windCount := wc, windCount2 := wc2, localMin := { PolyType := pt, IsOpen := false } }
+/-- an open subject edge -/
+def mkOpenEdge (wc wc2 : Int) : Active :=
+  { windDx := 1, windCount := wc, windCount2 := wc2, localMin := { PolyType := 0, IsOpen := true } }
+
 end Gen
